@@ -97,6 +97,10 @@ package keeper
 //@   ensures exists_error: get(S0, akey) != "" ==> err != nil
 //@   ensures written_nonempty: err == nil ==> len(get(store(ctx), akey)) == 32
 //@   ensures fail_unchanged: err != nil ==> world(ctx) == old(world(ctx))
+//@   ensures nonempty: err == nil ==> len(ack.AppAcknowledgements) > 0
+//@   ensures shape_valid: forall j int :: err == nil && 0 <= j && j < len(ack.AppAcknowledgements) ==> len(ack.AppAcknowledgements[j]) > 0 && (len(ack.AppAcknowledgements) > 1 ==> str(ack.AppAcknowledgements[j]) != str(types.ErrorAcknowledgement))
+//@   ensures one_ack_per_payload: err == nil && str(ack.AppAcknowledgements[0]) != str(types.ErrorAcknowledgement) ==> len(ack.AppAcknowledgements) == len(packet.Payloads)
+//@   ensures sentinel_alone: err == nil && str(ack.AppAcknowledgements[0]) == str(types.ErrorAcknowledgement) ==> len(ack.AppAcknowledgements) == 1
 
 //@ contract (*Keeper).WriteAcknowledgement
 //@   let S0 = store(ctx)
@@ -146,3 +150,43 @@ package keeper
 //@   ensures only_committed: calls("v2OnAcknowledgementPacket") > n0 ==> get(S0, ckey) != "" && get(S0, ckey) == types.CommitPacket(pk)
 //@   ensures noop_pure: err == nil && result.Result == types.NOOP ==> world(goCtx) == old(world(goCtx)) && calls("v2OnAcknowledgementPacket") == n0 && get(S0, ckey) == ""
 //@   ensures one_per_payload: err == nil && result.Result == types.SUCCESS ==> calls("v2OnAcknowledgementPacket") == n0 + len(pk.Payloads)
+
+// ---- RecvPacket (C10): all payload callbacks run on one cached context that is committed only if every
+// payload succeeded; the acknowledgement written is the callbacks' acknowledgements in payload order, or exactly
+// the single sentinel when some payload failed.
+
+//@ contract (*Keeper).RecvPacket
+//@   let pk = msg.Packet
+//@   let D = pk.DestinationClient
+//@   let s = pk.Sequence
+//@   let cfg = k.clientV2Keeper.GetConfig(goCtx, D)
+//@   let allowed = cfg.IsAllowedRelayer(bytes(bech32dec(msg.Signer)))
+//@   let S0 = kv(goCtx, k.storeService)
+//@   let W0 = world(goCtx)
+//@   let rkey = hostv2.PacketReceiptKey(D, s)
+//@   let akey = hostv2.PacketAcknowledgementKey(D, s)
+//@   let asyncKey = types.AsyncPacketKey(D, s)
+//@   let S1 = set(S0, rkey, str(2))
+//@   let W1 = withKV(W0, k.storeService, S1)
+//@   let n0 = calls("v2OnRecvPacket")
+//@   requires routerInv(k.Router)
+//@   modifies world(goCtx), calls v2OnRecvPacket
+//@   invariant #1 count: calls("v2OnRecvPacket") == n0 + rangeindex + 1 && 0 - 1 <= rangeindex && rangeindex < len(pk.Payloads)
+//@   invariant #1 tao_done: allowed && get(S0, rkey) == "" && world(ctx) == W1
+//@   invariant #1 child: world(cacheCtx) == ite(rangeindex < 0, W1, v2RecvWorld(n0 + rangeindex))
+//@   invariant #1 acks_len: len(ack.AppAcknowledgements) == rangeindex + 1
+//@   invariant #1 acks: forall j int :: 0 <= j && j <= rangeindex ==> str(ack.AppAcknowledgements[j]) == str(v2RecvRes(n0 + j).Acknowledgement)
+//@   invariant #1 acks_ok: forall j int :: 0 <= j && j <= rangeindex ==> v2RecvRes(n0 + j).Status != types.PacketStatus_Failure && str(v2RecvRes(n0 + j).Acknowledgement) != str(types.ErrorAcknowledgement)
+//@   invariant #1 asked: forall j int :: 0 <= j && j <= rangeindex ==> v2RecvPayload(n0 + j) == pk.Payloads[j] && v2RecvDest(n0 + j) == D && v2RecvSeq(n0 + j) == s
+//@   invariant #1 async_single: (isAsync ==> len(pk.Payloads) == 1 && rangeindex == 0) && (isAsync <==> exists j int :: 0 <= j && j <= rangeindex && v2RecvRes(n0 + j).Status == types.PacketStatus_Async)
+//@   ensures relayer_allowed: err == nil ==> allowed
+//@   ensures not_allowed_unchanged: !allowed ==> err != nil && world(goCtx) == W0 && calls("v2OnRecvPacket") == n0
+//@   ensures noop_pure: err == nil && result.Result == types.NOOP ==> world(goCtx) == W0 && calls("v2OnRecvPacket") == n0 && has(S0, rkey)
+//@   ensures only_fresh: calls("v2OnRecvPacket") > n0 ==> !has(S0, rkey)
+//@   ensures in_payload_order: forall j int :: 0 <= j && j < calls("v2OnRecvPacket") - n0 ==> j < len(pk.Payloads) && v2RecvPayload(n0 + j) == pk.Payloads[j] && v2RecvDest(n0 + j) == D && v2RecvSeq(n0 + j) == s
+//@   ensures stop_at_first_failure: forall j int :: n0 <= j && j < calls("v2OnRecvPacket") - 1 ==> v2RecvRes(j).Status != types.PacketStatus_Failure
+//@   ensures failure_discards_all: err == nil && result.Result == types.SUCCESS && calls("v2OnRecvPacket") > n0 && v2RecvRes(calls("v2OnRecvPacket") - 1).Status == types.PacketStatus_Failure ==> exists A types.Acknowledgement :: len(A.AppAcknowledgements) == 1 && str(A.AppAcknowledgements[0]) == str(types.ErrorAcknowledgement) && world(goCtx) == withKV(W0, k.storeService, set(S1, akey, types.CommitAcknowledgement(A)))
+//@   ensures success_all_called: err == nil && result.Result == types.SUCCESS && !(calls("v2OnRecvPacket") > n0 && v2RecvRes(calls("v2OnRecvPacket") - 1).Status == types.PacketStatus_Failure) ==> calls("v2OnRecvPacket") == n0 + len(pk.Payloads) && len(pk.Payloads) > 0
+//@   ensures success_persists: err == nil && result.Result == types.SUCCESS && calls("v2OnRecvPacket") > n0 && v2RecvRes(calls("v2OnRecvPacket") - 1).Status != types.PacketStatus_Failure && v2RecvRes(n0).Status != types.PacketStatus_Async ==> exists A types.Acknowledgement :: len(A.AppAcknowledgements) == len(pk.Payloads) && (forall j int :: 0 <= j && j < len(pk.Payloads) ==> str(A.AppAcknowledgements[j]) == str(v2RecvRes(n0 + j).Acknowledgement) && str(A.AppAcknowledgements[j]) != str(types.ErrorAcknowledgement)) && world(goCtx) == withKV(v2RecvWorld(calls("v2OnRecvPacket") - 1), k.storeService, set(kvOf(v2RecvWorld(calls("v2OnRecvPacket") - 1), k.storeService), akey, types.CommitAcknowledgement(A)))
+//@   ensures async_single_payload: err == nil && result.Result == types.SUCCESS && calls("v2OnRecvPacket") > n0 && v2RecvRes(n0).Status == types.PacketStatus_Async ==> len(pk.Payloads) == 1 && get(kvOf(world(goCtx), k.storeService), akey) == get(kvOf(v2RecvWorld(n0), k.storeService), akey) && has(kv(goCtx, k.storeService), asyncKey)
+//@   ensures async_only_first: forall j int :: err == nil && n0 < j && j < calls("v2OnRecvPacket") ==> v2RecvRes(j).Status != types.PacketStatus_Async
